@@ -152,6 +152,7 @@ def toHOp : Sexp → Option HOp
   | .list [.atom "setc", i, _, v] => do pure (.setc (← atomNat i) (← toVal v))
   | .list [.atom "setv", i, v] => do pure (.setv (← atomNat i) (← toVal v))
   | .list [.atom "setn", _, _] => some .refused
+  | .list [.atom "setneg", _, _] => some .refused   -- a NEGATIVE index (read, then written): never a position of the value
   | .list [.atom "setb", i, .atom hx] => do
     -- a raw byte string assigned to an integer position: the little-endian number it denotes
     let bs ← unhexAux (hx.toList.drop 1)
@@ -490,6 +491,9 @@ def toSOp : Sexp → Option SCmd
     pure (.steps [.mutate (← atomNat r) (.set (← atomNat i) (← toVal v))] false)
   | .list [.atom "copy", r] => do pure (.steps [.copy (← atomNat r)] false)
   | .list [.atom "snap", r] => do pure (.snap (← atomNat r))
+  -- a write into a throw-away COPY of view r (the harness assigns a summary-backed equal-root element there):
+  -- nothing held changes
+  | .list [.atom "tmpsum", _, _] => pure (.steps [] false)
   | _ => none
 
 /-- store histories: after every op the root and encoding of every held view and of every snapshot -/
@@ -578,6 +582,7 @@ inductive POp where
   | eqself                     -- view == view.copy()  (a comparison of roots)
   | fork                       -- keep another view of the current backing
   | fread (k : Nat)            -- read the whole value through the k-th kept view
+  | iterk (k : Nat)            -- the first k items of a plain iteration (a consumer that stops early)
 
 def toPOp : Sexp → Option POp
   | .list [.atom "read"] => some .read
@@ -591,6 +596,7 @@ def toPOp : Sexp → Option POp
   | .list [.atom "fread", k] => (atomNat k).map .fread
   | .list [.atom "sub", i, op] => do pure (.sub (← atomNat i) (← toHOp op))
   | .list [.atom "slice", a, b] => do pure (.slice (← atomNat a) (← atomNat b))
+  | .list [.atom "iterk", k] => do pure (.iterk (← atomNat k))
   | .list [.atom "bytes"] => some .bytes
   | .list [.atom "root"] => some .root
   | s => (toHOp s).map .mut
@@ -629,6 +635,10 @@ def stepPOp (t : Ty) (n : Node) (op : POp) (forks : List Node := []) : Node × S
       let b' := a' + b % (ln - a' + 1)
       (Impl.sliceRead H t n a' b').map fun xs =>
         toString a' ++ ":" ++ toString b' ++ ":" ++ String.intercalate "," (xs.map valStr)))
+  | .iterk k =>
+    -- the iterator is created (the length is read), then the first k items are read in order
+    (n, okStr ((viewLen t n).bind fun ln =>
+      (Impl.sliceRead H t n 0 (min k ln)).map fun xs => String.intercalate "," (xs.map valStr)))
   | .bytes => (n, okStr ((Impl.serTree H t n).map fun p => hexOf p.1))
   | .root => (n, "ok:" ++ hexOf (n.root H))
   | .mut ho =>
@@ -727,6 +737,9 @@ def runCase (xs : List Sexp) : Option String :=
   | .atom "store" :: t :: v :: ops => do pure (runStore (← toTy t) (← toVal v) (← ops.mapM toSOp))
   | .atom "storel" :: t :: v :: ops => do pure (runStore (← toTy t) (← toVal v) (← ops.mapM toSOp) true)
   | .atom "partial" :: t :: v :: .list (.atom "pos" :: gs) :: ops => do
+    pure (runPartial (← toTy t) (← toVal v) (← gs.mapM atomNat) (← ops.mapM toPOp))
+  -- the PARTIAL tree served lazily by a root-keyed source: the partial-tree semantics (`k.i`)
+  | .atom "virtp" :: t :: v :: .list (.atom "pos" :: gs) :: ops => do
     pure (runPartial (← toTy t) (← toVal v) (← gs.mapM atomNat) (← ops.mapM toPOp))
   | .atom "virt" :: t :: v :: ops => do pure (runVirt (← toTy t) (← toVal v) (← ops.mapM toPOp))
   | [.atom "dec", t, .atom pre, .atom body, .atom post] => do
